@@ -560,8 +560,10 @@ class ClockTask():
             _libsc3.main._update_logical_time(time)
             delta = self.task.__awake__(self.clock)
             if isinstance(delta, (int, float)) and not isinstance(delta, bool):
-                self.beats = self.beats + delta
-                self.scheduler.add(self.clock.beats2secs(self.beats), self)
+                beats = self.beats + delta
+                if beats != float('inf'):  # Never, as in sched.
+                    self.beats = beats
+                    self.scheduler.add(self.clock.beats2secs(beats), self)
         except stm.StopStream:
             pass
         except Exception:
